@@ -478,7 +478,9 @@ def fast_pareto_mask(df_values, goals, distinct=True):
             eff_data = eff_data.copy()
         for j, (_, sign) in enumerate(effective_cols):
             if sign != 1.0:
-                np.negative(eff_data[:, j], out=eff_data[:, j])
+                # Not np.negative(..., out=...): on a strided float32 column view that
+                # overlaps its own output some numpy builds negate the wrong elements.
+                eff_data[:, j] = -eff_data[:, j]
     else:
         eff_data = np.empty((n, n_eff), dtype=eff_dtype)
         j = 0
